@@ -153,6 +153,7 @@ func (vm *VM) lockWrite(p PtrV, try bool) bool {
 		vm.lockEventLog(kind, ls, true)
 		ls.w = true
 		ls.other = false
+		ls.owner = vm.P.curThread
 		vm.addHeld(k)
 		return true
 	}
@@ -161,12 +162,29 @@ func (vm *VM) lockWrite(p PtrV, try bool) bool {
 		return false
 	}
 	vm.lockEventLog("lock", ls, false)
-	if ls.other {
-		vm.block("Lock on " + ls.label + " held by another party")
+	vm.blockedOnLock(ls, "Lock")
+	return false
+}
+
+// blockedOnLock: a blocking acquire found the lock taken.
+func (vm *VM) blockedOnLock(ls *lockState, op string) {
+	switch {
+	case ls.other:
+		vm.block(op + " on " + ls.label + " held by another party")
+	case ls.w && ls.owner != vm.P.curThread && vm.P.curThread == 2:
+		vm.block(op + " on " + ls.label + " held by the main thread")
+	case ls.w && ls.owner != vm.P.curThread:
+		// the second thread's operation has completed, so nobody will ever release this lock
+		vm.P.Oblig++
+		vm.recordViolation("deadlock.lock-never-released", op+" on "+ls.label+" which an operation that already returned still holds", tTrue)
+		panic(&pathEnd{"deadlock"})
+	case !ls.w && ls.r > 0 && vm.P.curThread == 2:
+		vm.block(op + " on " + ls.label + " read-held by the main thread")
+	default:
+		vm.P.Oblig++
+		vm.recordViolation("deadlock.self-lock", "blocking "+op+" on "+ls.label+" which the same thread already holds", tTrue)
+		panic(&pathEnd{"self-deadlock"})
 	}
-	vm.P.Oblig++
-	vm.recordViolation("deadlock.self-lock", "blocking Lock on "+ls.label+" which the same thread already holds", tTrue)
-	panic(&pathEnd{"self-deadlock"})
 }
 
 func (vm *VM) lockRead(p PtrV, try bool) bool {
@@ -188,12 +206,8 @@ func (vm *VM) lockRead(p PtrV, try bool) bool {
 		return false
 	}
 	vm.lockEventLog("rlock", ls, false)
-	if ls.other {
-		vm.block("RLock on " + ls.label + " held by another party")
-	}
-	vm.P.Oblig++
-	vm.recordViolation("deadlock.self-rlock", "blocking RLock on "+ls.label+" which the same thread holds for writing", tTrue)
-	panic(&pathEnd{"self-deadlock"})
+	vm.blockedOnLock(ls, "RLock")
+	return false
 }
 
 func (vm *VM) unlockWrite(p PtrV) {
@@ -329,6 +343,22 @@ func addSync(m map[string]Intrinsic) {
 	}
 	m["vocab.vLocksLeaked"] = func(vm *VM, fn *ssa.Function, args []Value) Value {
 		return intV(len(vm.P.heldOrder))
+	}
+	// vInterpose(f, budget): f is one operation of a second thread; it may run (atomically) at
+	// any later scheduling point of the main thread, at most `budget` times per path.
+	m["vocab.vInterpose"] = func(vm *VM, fn *ssa.Function, args []Value) Value {
+		vm.P.interpose = args[0]
+		vm.P.interposeBudget = constInt(vm, args[1], "vInterpose budget")
+		if f, ok := args[0].(*FuncV); ok && f == nil {
+			vm.P.interpose = nil
+		}
+		return nil
+	}
+	m["vocab.vInterposed"] = func(vm *VM, fn *ssa.Function, args []Value) Value {
+		return intV(len(vm.P.interposedAt))
+	}
+	m["vocab.vThread2LocksLeaked"] = func(vm *VM, fn *ssa.Function, args []Value) Value {
+		return intV(len(vm.P.thread2Held))
 	}
 	m["vocab.vResetLockEvents"] = func(vm *VM, fn *ssa.Function, args []Value) Value {
 		vm.P.lockEvents = nil
